@@ -4,7 +4,7 @@
    trivia); declarations and statements are decided by the search (see tools/props/C01.py). *)
 From Coq Require Import List NArith Bool String Arith.
 From Verif Require Import Base.Res Gen.GenTokens Gen.GenPrec Model.Lexer Model.ExprParser Proofs.ExprParserProofs Proofs.ExprInstance.
-From Verif Require Model.StParser Model.DeclParser Model.StInstance Proofs.StExprProofs Proofs.StStmtProofs Proofs.StInstanceProofs Proofs.DeclProofs Proofs.TypeProofs Proofs.DeclInstanceProofs Proofs.LibProofs.
+From Verif Require Model.StParser Model.DeclParser Model.StInstance Proofs.StExprProofs Proofs.StStmtProofs Proofs.StInstanceProofs Proofs.DeclProofs Proofs.TypeProofs Proofs.DeclInstanceProofs Proofs.LibProofs Proofs.LexSpell Proofs.TextRoundTrip.
 Import ListNotations.
 Local Open Scope string_scope.
 
@@ -144,3 +144,28 @@ Proof. exact (TypeProofs.type_block_at token StInstance.tok_class t_text StInsta
 Theorem C01_function_faithful : forall f rest F, LibProofs.wf_f f -> (LibProofs.size_f f + 1 <= F)%nat ->
   StInstance.parse_function F (LibProofs.flat_f f ++ rest) = StInstance.FOk (LibProofs.erase_f f) rest.
 Proof. exact LibProofs.parse_function_spelled. Qed.
+
+(* ---- at the level of texts (Proofs/LexSpell.v, Proofs/TextRoundTrip.v) ---- *)
+(* the TEXT of any well-formed spelling of a function block -- blanks, tabs, line breaks (LF, CR LF), block comments, any letter
+   case, redundant parentheses, empty statements -- that passes the decidable check [text_ok] (every token carries its text and
+   no position; what follows each token in the text cannot extend it; no OSCAT markers) and holds no END_IF is parsed, by
+   lexer model and parser model composed, to the statements it denotes *)
+Theorem C01_spelled_text_is_faithful : forall w00 fb w0 nm w1 (l : StStmtProofs.sl token) w2 en w3,
+  StExprProofs.all_triv token StInstance.tok_class w00 -> t_kind fb = KFunctionBlock ->
+  StExprProofs.all_triv token StInstance.tok_class w0 -> t_kind nm = KIdentifier ->
+  StExprProofs.all_triv token StInstance.tok_class w1 ->
+  StStmtProofs.wf_l token StInstance.tok_class t_text StInstance.tok_num StInstance.op_level true l ->
+  StExprProofs.all_triv token StInstance.tok_class w2 -> t_kind en = KEndFunctionBlock ->
+  StExprProofs.all_triv token StInstance.tok_class w3 ->
+  (StStmtProofs.absorbs token l = true -> w2 = []) ->
+  let u := w00 ++ fb :: w0 ++ nm :: w1 ++ StStmtProofs.flat_l token l ++ w2 ++ en :: w3 in
+  TextRoundTrip.text_ok u = true -> forallb (fun t => negb (Lexer.kind_eqb (t_kind t) KEndIf)) u = true ->
+  StInstance.parse_fb_text (LexSpell.spell_all u) = StInstance.OParsed (StStmtProofs.erase_l token t_text StInstance.tok_num l).
+Proof. exact TextRoundTrip.spelled_text_is_faithful. Qed.
+
+(* non-vacuity of the check: a text in lower case with a block comment that holds "( *", CR LF, tabs and glued tokens passes it *)
+Example C01_text_check_example :
+  let u := map Lexer.norm_tok (Lexer.tokens_of (Lexer.lex_items TextRoundTrip.odd_text)) in
+  TextRoundTrip.text_ok u = true /\ LexSpell.spell_all u = TextRoundTrip.odd_text /\
+  match StInstance.parse_fb_text TextRoundTrip.odd_text with StInstance.OParsed l => List.length l = 2%nat | _ => False end.
+Proof. exact TextRoundTrip.odd_text_passes. Qed.
